@@ -113,6 +113,10 @@ func libReadFile(g *FuncGen, c *ast.CallExpr, callee *types.Func, st *State) []V
 func libGetwd(g *FuncGen, c *ast.CallExpr, callee *types.Func, st *State) []Val {
 	res := g.libResults(callee, st)
 	g.assume(st, fmt.Sprintf("(<= (blen %s) 4096)", res[0].T))
+	// the process never changes its directory (no os.Chdir outside tests): every successful call returns the same value
+	g.assume(st, fmt.Sprintf("(=> (= %s 0) (= %s cwd))", res[1].T, res[0].T))
+	g.declFun("cwdFails", nil, "Bool")
+	g.assume(st, fmt.Sprintf("(= (= %s 0) (not cwdFails))", res[1].T))
 	return res
 }
 
@@ -123,6 +127,9 @@ func libRel(g *FuncGen, c *ast.CallExpr, callee *types.Func, st *State) []Val {
 	g.declFun("relPath", []string{"Bytes", "Bytes"}, "Bytes")
 	res := g.libResults(callee, st)
 	g.assume(st, fmt.Sprintf("(=> (= %s 0) (and (= %s (relPath %s %s)) (<= (blen %s) (+ (* 3 (blen %s)) (blen %s)))))", res[1].T, res[0].T, b.T, t.T, res[0].T, b.T, t.T))
+	// whether these fail depends on their arguments only (same call, same outcome within one run)
+	g.declFun("relFails", []string{"Bytes", "Bytes"}, "Bool")
+	g.assume(st, fmt.Sprintf("(= (= %s 0) (not (relFails %s %s)))", res[1].T, b.T, t.T))
 	return res
 }
 
@@ -131,6 +138,8 @@ func libAbs(g *FuncGen, c *ast.CallExpr, callee *types.Func, st *State) []Val {
 	g.declFun("absPath", []string{"Bytes"}, "Bytes")
 	res := g.libResults(callee, st)
 	g.assume(st, fmt.Sprintf("(=> (= %s 0) (and (= %s (absPath %s)) (<= (blen %s) (+ 4097 (blen %s)))))", res[1].T, res[0].T, p.T, res[0].T, p.T))
+	g.declFun("absFails", []string{"Bytes"}, "Bool")
+	g.assume(st, fmt.Sprintf("(= (= %s 0) (not (absFails %s)))", res[1].T, p.T))
 	return res
 }
 
